@@ -18,7 +18,7 @@ Emit == count = T => PrintT("@@GEN " \o ToJson([cfg |-> cfg, steps |-> hist]))
 GEN_Cfgs == [S : 1..3, P : 1..3, Start : {0, 2, 3}, sched : {"none"},
              End : {0}, mode : {"rep", "shard"}, thr : {"pos"}]
 GEN_Sched == [S : {1, 2}, P : {1, 3}, Start : {1}, sched : {"lin16", "half4"},
-             End : {20, 40}, mode : {"rep", "shard"}, thr : {"pos"}]
+             End : {20, 40}, mode : {"rep", "pmapq", "shard"}, thr : {"pos"}]
 GENT_Cfgs == [S : 1..4, P : 1..4, Start : 0..5, sched : {"none"},
              End : {0}, mode : {"rep", "pmapq", "shard"}, thr : {"pos"}]
               \cup [S : 1..3, P : 1..3, Start : {0, 3}, sched : {"lin16", "half4"},
